@@ -75,17 +75,17 @@ theorem allocLchans_types (mask : Nat) (hm : mask < 18446744073709551616) (l : L
             (acc ++ [⟨t, false, ⟨0, 0, 0⟩⟩]))
         refine ⟨r, hr, ?_⟩
         rw [ht, updFirst_types]
-        · simp [List.filter_cons, hb]
+        · simp [hb]
         · intro l; split <;> rfl
       · obtain ⟨r, hr, ht⟩ := ih hrest (acc ++ [⟨t, false, ⟨0, 0, 0⟩⟩])
         refine ⟨r, hr, ?_⟩
         rw [ht]
-        simp [List.filter_cons, hb]
+        simp [hb]
     · simp only [hb, Bool.not_false, if_true]
       obtain ⟨r, hr, ht⟩ := ih hrest acc
       refine ⟨r, hr, ?_⟩
       rw [ht]
-      simp [List.filter_cons, hb]
+      simp [hb]
 
 /-! ## `l1sched_configure_ts` -/
 
@@ -345,10 +345,14 @@ theorem substFrameLoss_spec (L : Layout) (hok : tableOk L = true) (hp : L.period
     have n1 : ¬ ((e : Int) < 0) := by omega
     have n2 : ¬ ((e : Int) > (L.period : Int)) := by omega
     have n3 : ¬ ((e : Int) = 0) := by omega
-    have hn : ((e : Int) - 1).toNat = e - 1 := by omega
+    rw [if_neg n1, if_neg n2, if_neg n3]
+    generalize hg : ((e : Int) - 1).toNat = n
+    have hn : n = e - 1 := by omega
+    subst hn
     obtain ⟨td', h3, h4⟩ := substLoop_spec L hok l.type tn (e - 1) l.tdma.lastProc l.tdma hl
     refine ⟨td', ?_, h4⟩
-    simp only [n1, n2, n3, if_false, hn, h3, bind, Except.bind, pure, Except.pure]
+    rw [h3]
+    rfl
 
 /-! ## the consumers on a configured timeslot -/
 
